@@ -2,6 +2,7 @@ package props
 
 import (
 	"go/ast"
+	"go/constant"
 	"go/types"
 	"strings"
 
@@ -76,7 +77,7 @@ func grantPredicate(c *engine.Ctx) {
 	o := c.Custom("C14.2", "predicate", "every granting path of TemporaryEvaluate depends on (a) an == between a non-empty element of the caller's groups and a configured admin group, or (b) all identity keys (preferred_username, name, email, groups) being empty; no substring/prefix/fold/index/regexp test decides a grant",
 		"a caller with no groups, or whose group merely resembles an administrator group's name, must be refused")
 	defer o.Done(1)
-	paths, err := c.A.PathsOpt(pkgUtils, engine.PathOpts{Roots: []string{"utils.TemporaryEvaluate"}, NoInline: true})
+	paths, err := c.A.PathsOpt(pkgUtils, engine.PathOpts{Roots: []string{"utils.TemporaryEvaluate"}})
 	if err != nil {
 		o.Undecided(evalFn, err.Error())
 		return
@@ -183,7 +184,34 @@ func grantPredicate(c *engine.Ctx) {
 		}
 		// (a) equality of a non-empty caller group with a configured group
 		eq, nonEmpty := false, false
-		banned := ""
+		banned, cutBy := "", ""
+		// the caller's groups arrive joined by ";" (onos-lib-go's interceptor; the constant next to
+		// TemporaryEvaluate): an element of any other tokenisation is a piece of a group name, not a group
+		sepOK := func(sep string) bool {
+			if sep == `";"` {
+				return true
+			}
+			if pkg := c.P.Pkg(pkgUtils); pkg != nil && strings.HasPrefix(sep, "utils.") {
+				if k, ok := pkg.Types.Scope().Lookup(strings.TrimPrefix(sep, "utils.")).(*types.Const); ok && k.Val().Kind() == constant.String {
+					return constant.StringVal(k.Val()) == ";"
+				}
+			}
+			return false
+		}
+		callerToken := func(s string) bool {
+			if strings.HasPrefix(s, "strings.TrimSpace(") {
+				s = strings.TrimSuffix(strings.TrimPrefix(s, "strings.TrimSpace("), ")")
+			}
+			if !strings.HasPrefix(s, "elem(strings.Split(") || !strings.HasSuffix(s, "))") {
+				return false
+			}
+			body := s[len("elem(strings.Split(") : len(s)-2]
+			k := strings.LastIndex(body, ",")
+			return k > 0 && strings.HasSuffix(body[:k], groupSrc) && sepOK(body[k+1:])
+		}
+		neverEmpty := func(s string) bool { // elements of Fields/FieldsFunc are never empty
+			return strings.HasPrefix(s, "elem(strings.FieldsFunc(") || strings.HasPrefix(s, "elem(strings.Fields(")
+		}
 		for _, l := range conds {
 			callerL, callerR := strings.Contains(l.L, groupSrc), strings.Contains(l.R, groupSrc)
 			adminL, adminR := strings.Contains(l.L, `os.Getenv("ADMINGROUPS")`), strings.Contains(l.R, `os.Getenv("ADMINGROUPS")`)
@@ -197,6 +225,16 @@ func grantPredicate(c *engine.Ctx) {
 			}
 			if l.Mask == 2 && l.R != "true" && ((callerL && adminR) || (callerR && adminL)) && plain(l.L) && plain(l.R) {
 				eq = true
+				caller, admin := l.L, l.R
+				if callerR {
+					caller, admin = l.R, l.L
+				}
+				if !callerToken(caller) {
+					cutBy = caller
+				}
+				if neverEmpty(admin) || neverEmpty(caller) {
+					nonEmpty = true // equal to something that cannot be empty
+				}
 			}
 			if l.Mask == 5 && l.R == `""` && callerL && plain(l.L) {
 				nonEmpty = true
@@ -217,6 +255,10 @@ func grantPredicate(c *engine.Ctx) {
 		case !eq:
 			o.Fail(&engine.Violation{Key: evalFn + "|grant without group equality", Pos: c.P.Pos(last.Pos), Func: evalFn,
 				Msg: "a path grants without an equality between a caller group and a configured administrator group (and not because the request has no identity metadata)", Found: c.RenderConds(conds)})
+			return
+		case cutBy != "":
+			o.Fail(&engine.Violation{Key: evalFn + "|caller groups not split by the join separator", Pos: c.P.Pos(last.Pos), Func: evalFn,
+				Msg: "the caller-side operand of the deciding equality is " + c.Render(cutBy) + ", not an element of strings.Split(groups, \";\"): a group whose name contains another separator is cut into pieces and a piece that equals an administrator group admits the caller", Found: c.RenderConds(conds)})
 			return
 		case !nonEmpty:
 			o.Fail(&engine.Violation{Key: evalFn + "|empty group admitted", Pos: c.P.Pos(last.Pos), Func: evalFn,
